@@ -224,7 +224,11 @@ class Register:
         if step == 0:
             raise JaqalError("Slice step cannot be zero.")
 
-        return len(range(start, stop, step))
+        # len(range(...)) overflows for very large registers
+        if step > 0:
+            return max(0, -((start - stop) // step))
+        else:
+            return max(0, -((stop - start) // -step))
 
     def resolve_qubit(self, idx, context=None):
         """
